@@ -137,18 +137,26 @@ impl TaskManager {
 
 					running.store(true, Ordering::SeqCst);
 					log::debug!("Level compaction task starting");
+					#[cfg(surrealkv_verif)]
+					crate::verif::gate_point("task:level-running");
 
 					// Use leveled compaction strategy
 					let strategy: Arc<dyn CompactionStrategy> =
 						Arc::new(Strategy::from_options(Arc::clone(&opts)));
 					if let Err(e) = core.compact(strategy) {
+						#[cfg(surrealkv_verif)]
+						crate::verif::gate_point("task:level-compacted");
 						log::error!("Level compaction task error: {e:?}");
 						core.error_handler().set_error(e, BackgroundErrorReason::Compaction);
 						write_stall.signal_shutdown();
 					} else {
+						#[cfg(surrealkv_verif)]
+						crate::verif::gate_point("task:level-compacted");
 						log::debug!("Level compaction completed successfully");
 						write_stall.signal_work_done();
 					}
+					#[cfg(surrealkv_verif)]
+					crate::verif::gate_point("task:level-signalled");
 					running.store(false, Ordering::SeqCst);
 				}
 			});
@@ -177,6 +185,11 @@ impl TaskManager {
 		if !self.level_running.load(Ordering::Acquire) {
 			self.level_notify.notify_one();
 		}
+	}
+
+	#[cfg(surrealkv_verif)]
+	pub(crate) fn verif_running(&self) -> (bool, bool) {
+		(self.memtable_running.load(Ordering::Acquire), self.level_running.load(Ordering::Acquire))
 	}
 
 	pub async fn stop(&self) {
